@@ -5772,6 +5772,32 @@ impl RelationalEngine {
 
     #[allow(clippy::significant_drop_tightening)] // Lock scope is intentional for atomicity
     fn btree_index_add(&self, table: &str, column: &str, value: &Value, row_id: u64) -> Result<()> {
+        self.btree_index_add_impl(table, column, value, row_id, true)
+    }
+
+    /// Re-adds an entry while undoing a transaction. Rollback only puts back what was there
+    /// before, so it is exempt from the `max_btree_entries` bound: other statements may have
+    /// used up the room in the meantime, and a refused re-add would leave the restored row
+    /// missing from the index for good.
+    fn btree_index_restore(
+        &self,
+        table: &str,
+        column: &str,
+        value: &Value,
+        row_id: u64,
+    ) -> Result<()> {
+        self.btree_index_add_impl(table, column, value, row_id, false)
+    }
+
+    #[allow(clippy::significant_drop_tightening)] // Lock scope is intentional for atomicity
+    fn btree_index_add_impl(
+        &self,
+        table: &str,
+        column: &str,
+        value: &Value,
+        row_id: u64,
+        enforce_limit: bool,
+    ) -> Result<()> {
         let key = (table.to_string(), column.to_string());
         let ordered_key = OrderedKey::from_value(value);
         let sortable = value.sortable_key();
@@ -5785,7 +5811,7 @@ impl RelationalEngine {
 
             // Check if this is a new key (will add memory)
             let is_new_key = !btree.contains_key(&ordered_key);
-            if is_new_key {
+            if is_new_key && enforce_limit {
                 // Check bounds before adding new entry
                 let current = self.btree_entry_count.load(Ordering::Relaxed);
                 if current >= self.max_btree_entries {
@@ -6718,7 +6744,7 @@ impl RelationalEngine {
                     }
                     if self.has_btree_index(table, &change.column) {
                         if let Err(e) =
-                            self.btree_index_add(table, &change.column, &change.old_value, *row_id)
+                            self.btree_index_restore(table, &change.column, &change.old_value, *row_id)
                         {
                             errors.push(format!(
                                 "Failed to add btree index for {table}.{}: {e}",
@@ -6753,7 +6779,7 @@ impl RelationalEngine {
                         }
                     }
                     if self.has_btree_index(table, col) {
-                        if let Err(e) = self.btree_index_add(table, col, value, *row_id) {
+                        if let Err(e) = self.btree_index_restore(table, col, value, *row_id) {
                             errors.push(format!(
                                 "Failed to add btree index entry for {table}.{col}: {e}"
                             ));
